@@ -71,6 +71,21 @@ BUILTINS['enumerate'] = lambda x, start=0: list(enumerate(x, start))
 BUILTINS['str'] = str
 BUILTINS['tuple'] = tuple
 BUILTINS['set'] = set
+BUILTINS['dict'] = dict
+BUILTINS['zip'] = lambda *a: list(zip(*a))
+BUILTINS['frozenset'] = frozenset
+BUILTINS['isinstance'] = lambda v, t: isinstance(v, t) if isinstance(t, (type, tuple)) and all(isinstance(x, type) for x in (t if isinstance(t, tuple) else (t,))) else (_ for _ in ()).throw(Unsupported('isinstance with a model class'))
+TYPE_METHODS = {('dict', 'fromkeys'): dict.fromkeys}
+
+
+def _getattr(obj, name, *default):
+    # attribute of a model object by computed name (getattr(self, flag_name))
+    if not isinstance(obj, Native) or not isinstance(name, str) or name.startswith('__'):
+        raise Unsupported('getattr on %s' % type(obj).__name__)
+    return getattr(obj, name, *default)
+
+
+BUILTINS['getattr'] = _getattr
 METHODS.add((set, 'add'))
 BUILTINS['sorted'] = sorted
 BUILTINS['any'] = any
@@ -100,6 +115,7 @@ class Evaluator:
         self.hook = hook
         self.name_hook = name_hook
         self.steps = 0
+        self.owner = None       # class whose method is being evaluated (set by function()): source of self.X / cls.X constants
 
     # -- expressions ----------------------------------------------------------------
     def ev(self, n):
@@ -174,6 +190,9 @@ class Evaluator:
             return self.comprehension(n, 0, [])
         if isinstance(n, ast.SetComp):
             return set(self.comprehension(n, 0, []))
+        if isinstance(n, ast.DictComp):
+            pair = ast.Tuple(elts=[n.key, n.value], ctx=ast.Load())
+            return dict(self.comprehension(ast.ListComp(elt=pair, generators=n.generators), 0, []))
         if isinstance(n, ast.Set):
             return {self.ev(x) for x in n.elts}
         if isinstance(n, ast.Dict) and all(k is not None for k in n.keys):
@@ -185,6 +204,17 @@ class Evaluator:
                 base = None
             if isinstance(base, Native) and hasattr(base, n.attr):
                 return getattr(base, n.attr)
+        if isinstance(n, ast.Attribute) and isinstance(n.value, ast.Name) and n.value.id in ('self', 'cls') and self.owner is not None:
+            # a class level constant (size limit, table, format string) reached through self / cls
+            var = self.owner.resolve_var(n.attr) if hasattr(self.owner, 'resolve_var') else None
+            node = getattr(var, 'node', None)
+            if isinstance(node, ast.AST) and not isinstance(node, (ast.FunctionDef, ast.Lambda)):
+                sub = Evaluator({}, self.hook, self.name_hook)
+                sub.owner = self.owner
+                try:
+                    return sub.ev(node)
+                except Unsupported:
+                    pass
         if isinstance(n, ast.Attribute) and self.name_hook is not None:
             return self.name_hook(ast.unparse(n))
         raise Unsupported('expression %s' % ast.unparse(n)[:60])
@@ -213,6 +243,9 @@ class Evaluator:
             raise Raised(ast.unparse(n.args[0]))
         args = [self.ev(a) for a in n.args]
         kwargs = {k.arg: self.ev(k.value) for k in n.keywords}
+        if isinstance(n.func, ast.Attribute) and isinstance(n.func.value, ast.Name) and n.func.value.id not in self.env and \
+                (n.func.value.id, n.func.attr) in TYPE_METHODS:
+            return TYPE_METHODS[(n.func.value.id, n.func.attr)](*args, **kwargs)
         if isinstance(n.func, ast.Name) and n.func.id in BUILTINS and n.func.id not in self.env:
             try:
                 return BUILTINS[n.func.id](*args, **kwargs)
@@ -372,6 +405,9 @@ class Evaluator:
 
     def function(self, node):
         """value returned by the body of a FunctionDef (None when it falls off the end)"""
+        if self.owner is None:
+            from .model import FUNCTION_OWNER
+            self.owner = FUNCTION_OWNER.get(id(node))
         try:
             self.run(node.body)
         except _Return as r:
@@ -417,6 +453,16 @@ def class_call_hook(cls, extra=None, model=None):
                 r = model.resolve_name(module, name)
                 if r is not None and hasattr(r, 'mro') and hasattr(r, 'resolve'):
                     return ClassRef(r)
+            parts = name.split('.')
+            if len(parts) == 2 and (parts[0] in ('cls', 'self') or parts[0] == getattr(cls, 'name', None)) and hasattr(cls, 'resolve_var'):
+                # a class level constant (table, number, string) of the class under evaluation
+                v = cls.resolve_var(parts[1])
+                node = getattr(v, 'node', v)
+                if isinstance(node, ast.AST):
+                    try:
+                        return Evaluator({}, make(cls, cls.module), name_hook_for(cls.module, outer)).ev(node)
+                    except Unsupported:
+                        pass
             if outer is not None:
                 return outer(name)
             raise Unsupported('free name %s' % name)
